@@ -51,6 +51,7 @@ type Contract struct {
 	Preserves []string
 	CalleesPreserve []string
 	NoSafety  bool
+	Records        [][2]string // history ghosts: name, expression (value at the last return of this function)
 	DecideBranches bool // case contracts: undecided `x == constant` branches are put to the solver
 	KeepPre   bool // with nosafety: callee preconditions are still checked
 	AllocBound string
@@ -101,7 +102,7 @@ func (c *Contract) HasProp(p string) bool {
 // Thorough: the thorough tier is running (clauses labelled [...@thorough] are included).
 var Thorough bool
 
-var kwRe = regexp.MustCompile(`^(prop|func|lemma|case|closure|vars|inline-calls|requires|ensures|modifies|preserves|callees-preserve|alloc-bound|decide-branches|nosafety|inline-depth|may-panic|maybe-nil|inline|trusted|noverify|sweep|loop|invariant|exit-assume|unroll|iface)\b(\[[A-Za-z0-9_\-\.@]+\])?\s*(.*)$`)
+var kwRe = regexp.MustCompile(`^(prop|func|lemma|case|closure|vars|inline-calls|requires|ensures|modifies|preserves|callees-preserve|alloc-bound|decide-branches|records|nosafety|inline-depth|may-panic|maybe-nil|inline|trusted|noverify|sweep|loop|invariant|exit-assume|unroll|iface)\b(\[[A-Za-z0-9_\-\.@]+\])?\s*(.*)$`)
 
 // ParseContractFile extracts //@ blocks from one Go file.
 func ParseContractFile(path, pkgPath string) ([]*Contract, error) {
@@ -222,6 +223,13 @@ func ParseContractFile(path, pkgPath string) ([]*Contract, error) {
 			}
 		case "alloc-bound":
 			cur.AllocBound = strings.TrimSpace(p.text)
+		case "records":
+			// records <ghost name> = <expr over the results and the post-state>
+			i := strings.Index(p.text, "=")
+			if i < 0 {
+				return fmt.Errorf("%s:%d: records needs `name = expr`", path, p.line)
+			}
+			cur.Records = append(cur.Records, [2]string{strings.TrimSpace(p.text[:i]), strings.TrimSpace(p.text[i+1:])})
 		case "decide-branches":
 			cur.DecideBranches = true
 		case "nosafety":
@@ -696,6 +704,7 @@ func verif_field_len(p any, name string) int  { return 0 }
 func verif_modifies_ghostflag(name string, x any) {}
 func verif_ghost_flag(name string, x any) bool { return false }
 func verif_ghost_int(name string) int         { return 0 }
+func verif_record(name string, v int)         {}
 func verif_ghost_map(name string, k uint64) uint64 { return 0 }
 func verif_ghost_map_kept(mark, other string) bool { return true }
 func verif_ghost_map_old(name string, k uint64) uint64 { return 0 }
@@ -811,6 +820,10 @@ func (c *Contract) Generate() (string, error) {
 	for _, cl := range c.Ensures {
 		ens = append(ens, rw.rewrite(cl.Expr, false))
 	}
+	var recs []string
+	for _, r := range c.Records {
+		recs = append(recs, rw.rewrite(r[1], false))
+	}
 	if rw.err != nil {
 		return "", fmt.Errorf("%s: %v", c.Display(), rw.err)
 	}
@@ -846,6 +859,9 @@ func (c *Contract) Generate() (string, error) {
 	}
 	for k, e := range ens {
 		fmt.Fprintf(&b, "\tverif_ensures(%d, %s)\n", k, e)
+	}
+	for k, e := range recs {
+		fmt.Fprintf(&b, "\tverif_record(%q, int(%s))\n", c.Records[k][0], e)
 	}
 	fmt.Fprintf(&b, "}\n")
 	// invariants
